@@ -97,7 +97,10 @@ def run(R, replay=None):
               "use, every literal kind, containers incl. sets with unhashable elements, names, attributes, calls, f-strings) plus a generic "
               "generator (every keyed name x crash-provoking argument shapes; mutated example files) under the default configuration; "
               "every internal error of the real tester is a violation, identified by check / exception class / provoking shape; the "
-              "models must reproduce each crash (whole-scan correspondence includes the error list); non-trivial = at least one "
+              "models must reproduce each crash (whole-scan correspondence on the list of internal errors); non-trivial = at least one "
               "finding or internal error")
     gens = [g for g in GENS if os.path.exists(os.path.join(core.VERIF, "tools", g.replace(".", "/") + ".py"))]
-    family.run_family(R, PROP_FILES, DEPS, gens, oracle, "all plugin families", max_quick=6000)
+    # the correspondence of this property is about what it states: which checks raise on which programs (the models must
+    # reproduce each internal error and raise none of their own); whether the *findings* agree is the tie of C14-C17
+    import scancorr
+    family.run_family(R, PROP_FILES, DEPS, gens, oracle, "all plugin families", max_quick=6000, eq=scancorr.ERRORS_ONLY)
